@@ -467,7 +467,21 @@ def run_case(desc):
         out_ids = history.choose_out(rng, S)
         fresh = history.choose_fresh(rng, S)
         exp = S.expect(out_ids, fresh)
-        res, exc = S.run(out_ids, W=desc["W"], sched=desc["sched"], fresh_tick=fresh, perturb=desc.get("perturb", "none"), seed=desc["seed"], progress=progress)
+        mtkw = {}
+        if desc["seed"] % 5 == 1 and S.store_name:
+            # one store cannot say how old its value is (the stale check's own failure path), under every error limit
+            victim_store = rng.choice(sorted(S.store_name.values()))
+
+            def mt_fails(kind, st):
+                if kind == "mt" and st.name == victim_store:
+                    raise FileNotFoundError(2, f"cannot stat the file behind {st.name}")
+
+            S.H.store_hook = mt_fails
+            mtkw = {"max_errors": rng.choice([0, None, None, 2])}
+        try:
+            res, exc = S.run(out_ids, W=desc["W"], sched=desc["sched"], fresh_tick=fresh, perturb=desc.get("perturb", "none"), seed=desc["seed"], progress=progress, **mtkw)
+        finally:
+            S.H.store_hook = None
         H, ir = S.H, S.ir
         balanced = True
         describe = S.describe(12)
